@@ -231,13 +231,24 @@ func (self *Engine) UpdateTripsAndBackfill(now EpochTime) (UpdateBackfillStats,e
 	for elem := range stats {
 		ut.Grounded += elem.Grounded
 		ut.Travellers += elem.Travellers
-		ut.Distance += elem.Distance
+		for i,d := range elem.prefixDistance {
+			if d != 0 {
+				ut.prefixDistance[i] = d
+			}
+		}
 		ut.Flights += elem.Flights
 		ut.ClearedDistanceDeltas = append(ut.ClearedDistanceDeltas,elem.ClearedDistanceDeltas...)
 		ut.ClearedDaysDeltas = append(ut.ClearedDaysDeltas,elem.ClearedDaysDeltas...)
 		if (elem.Err != nil) {
 			ut.Err = elem.Err
 		}
+	}
+
+	// Each key prefix is handled by exactly one thread. Add the per-prefix totals
+	// in prefix order, so that the total distance does not depend on how prefixes
+	// are shared between threads or on the order in which threads report
+	for _,d := range ut.prefixDistance {
+		ut.Distance += d
 	}
 
 	// Update total grounded and return
@@ -256,6 +267,7 @@ type UpdateBackfillStats struct {
 	BestFitPoints		[]float64
 	BestFitConsts		[]float64
 	Err			error
+	prefixDistance		[16]Kilometres
 }
 
 func NewUpdateBackfillStats() *UpdateBackfillStats {
@@ -305,7 +317,7 @@ func (self *Engine) updateSomeTravellers(prefixStart byte, prefixEnd byte, share
 			distanceYesterday,flightsYesterday,err := traveller.tripHistory.Update(&self.Administrator.params,now) 
 			if err == nil {
 				if distanceYesterday > 0 {
-					us.Distance += distanceYesterday
+					us.prefixDistance[pc] += distanceYesterday
 					us.Travellers ++
 					us.Flights += flightsYesterday
 				}
